@@ -368,6 +368,14 @@ theorem c01_changeover_c4_c5_monotone (d d' dcrit : Rat) (hc : 0 < dcrit) (h : d
 /-- non-vacuity: strict increase inside the transition zone (dcrit = 1, d = 0.4 → 0.7), both functions -/
 example : Changeover.LC4 (4/10) 1 < Changeover.LC4 (7/10) 1 ∧ Changeover.LC5 (4/10) 1 < Changeover.LC5 (7/10) 1 ∧
     Changeover.LC4 (4/10) 1 = 2851/19683 := by decide +kernel
+/-- inside the transition zone the changeover is a strict interpolation (no plateau): for `dcrit/10 ≤ d < d' ≤ dcrit` all three
+    polynomial changeover functions strictly increase, so a pair moving inward always shifts weight from the Kepler to the
+    interaction part (derivatives 30 y²(1−y)², 630 y⁴(1−y)⁴, 2772 y⁵(1−y)⁵ are positive on (0,1)) -/
+theorem c01_changeover_strict_in_zone (d d' dcrit : Rat) (hc : 0 < dcrit) (hlo : dcrit / 10 ≤ d) (h : d < d') (hhi : d' ≤ dcrit) :
+    Changeover.Lmercury d dcrit < Changeover.Lmercury d' dcrit ∧ Changeover.LC4 d dcrit < Changeover.LC4 d' dcrit ∧
+    Changeover.LC5 d dcrit < Changeover.LC5 d' dcrit := ChangeoverMono.all_strict d d' dcrit hc hlo h hhi
+/-- non-vacuity: the zone hypotheses are satisfiable (dcrit = 7/3, d = 1, d' = 2) -/
+example : (0 : Rat) < 7/3 ∧ (7/3 : Rat) / 10 ≤ 1 ∧ (1 : Rat) < 2 ∧ (2 : Rat) ≤ 7/3 := by decide +kernel
 /-- grid form of the same statement (kept: it is decided by the kernel on the translator-derived table `ChangeoverT`, independent of
     the real-analysis argument above): monotone on a grid of 251 distances across the transition -/
 theorem c01_changeover_monotone_partial : ∀ L ∈ [Changeover.Lmercury, Changeover.LC4, Changeover.LC5], ∀ k ∈ List.range 250,
